@@ -285,6 +285,18 @@ theorem walkKey_expect (path : List Str) (v : SVar) (hn : plainName v.name) :
   · simp [e, quoteName_plain v.name hn.2]
   · simp [e, quoteName_plain v.name hn.2, fqn, pathStr_append]
 
+theorem quoteName_key (path : List Str) (n : Str) (hp : ∀ q ∈ path, plainName q) (hn : plainName n) :
+    quoteName (keyOf path n) = keyOf path n := by
+  unfold keyOf
+  by_cases e : path = []
+  · rw [if_pos e]; exact quoteName_plain n hn.2
+  · rw [if_neg e]
+    apply quoteName_pathStr
+    intro q hq
+    rcases List.mem_append.mp hq with h | h
+    · exact hp q h
+    · simp at h; subst h; exact hn
+
 theorem decodeOrder_render (pre : List (Str × Str)) (name : Str) (s : Spec)
     (hok : s.ok) (hres : refsResolve s) (hn : distinctNodes s) (hd : distinctDims s) :
     decodeOrder (renderRoot pre name s) = .ok (expectVars s) := by
@@ -293,6 +305,13 @@ theorem decodeOrder_render (pre : List (Str × Str)) (name : Str) (s : Spec)
   obtain ⟨ws, hws, hperm⟩ := datasetWalk_perm pre name s hok hres hn hd
   unfold decodeOrder
   rw [hws, getVariables_root pre name s hok, dictOfLog_nodup _ (varKeys_nodup s hok hv)]
+  have hq : ((specVars [] s).map entryOf).map (fun kv => quoteName kv.1) = ((specVars [] s).map entryOf).map (·.1) := by
+    rw [List.map_map, List.map_map]
+    apply List.map_congr_left
+    intro pv hpv
+    obtain ⟨h1, h2, _⟩ := specVars_mem s hok [] hnil pv hpv
+    exact quoteName_key pv.1 pv.2.name h1 h2.2.1
+  rw [hq]
   simp only [bind, Except.bind, pure, Except.pure]
   congr 1
   apply sortBy_perm_eq walkKey _ _ _ _ (varKeys_nodup s hok hv) hperm
